@@ -16,6 +16,8 @@
 EXTENDS Integers, Sequences, FiniteSets, FiniteSetsExt, TLC, Json
 
 CONSTANTS VerifyStopsAtFirst,             \* TRUE: verification returns at the first mismatching blob (the pinned code)
+          DupOverwritesSkipVerify,        \* TRUE (the pinned code): a manifest that lists a digest twice makes the second occurrence, a cache
+                                          \*       hit, mark the blob as "not to be verified" although this attempt downloaded it
           VerifyOnFailure                 \* TRUE: an attempt that fails before the verification stage still verifies (and removes)
                                           \*       what it downloaded.  FALSE is the code: such blobs stay, unverified (known finding)
 
@@ -45,21 +47,27 @@ Downloaded(p, f, b) ==
   IN IF p2.done = 2 THEN p2 ELSE Chunk(p2, "ok")
 
 \* one attempt, blob by blob: st = [final, part, fetched (blobs downloaded in this attempt), failed]
-RECURSIVE FetchN(_, _, _, _)
-FetchN(st, f, b, n) ==
-  IF b > n \/ st.failed THEN st
-  ELSE IF st.final[b] # "absent" THEN FetchN(st, f, b + 1, n)                          \* cache hit
-  ELSE IF f[<<"h", b>>] # "ok" /\ st.part[b].done = 0 /\ st.part[b] = NoPart THEN [st EXCEPT !.failed = TRUE]   \* HEAD only without part files
-  ELSE IF f[<<"r", b>>] # "ok" THEN [st EXCEPT !.failed = TRUE]      \* 5xx, or a blob served without the redirect to another host
-  ELSE LET p == Downloaded(st.part[b], f, b) IN
-       FetchN([st EXCEPT !.final[b] = IF p.good THEN "good" ELSE "bad", !.part[b] = NoPart, !.fetched = @ \cup {b}], f, b + 1, n)
-\* a manifest whose last blob (the config) has an empty digest: the blobs before it are fetched, then the attempt fails
-Fetch(st, f, b) == IF f[<<"m", 0>>] = "empty-digest" THEN [FetchN(st, f, b, 2) EXCEPT !.failed = TRUE] ELSE FetchN(st, f, b, 3)
+\* the blobs in the order the manifest names them; dup: the second layer is listed twice
+Layout(dup) == IF dup THEN <<1, 2, 2, 3>> ELSE <<1, 2, 3>>
+RECURSIVE FetchL(_, _, _, _)
+FetchL(st, f, lay, i) ==
+  IF i > Len(lay) \/ st.failed THEN st
+  ELSE LET b == lay[i] IN
+       IF st.final[b] # "absent"                                                        \* cache hit: skipVerify[digest] = true
+         THEN FetchL([st EXCEPT !.fetched = IF DupOverwritesSkipVerify THEN @ \ {b} ELSE @], f, lay, i + 1)
+       ELSE IF f[<<"h", b>>] # "ok" /\ st.part[b].done = 0 /\ st.part[b] = NoPart THEN [st EXCEPT !.failed = TRUE]   \* HEAD only without part files
+       ELSE IF f[<<"r", b>>] # "ok" THEN [st EXCEPT !.failed = TRUE]      \* 5xx, or a blob served without the redirect to another host
+       ELSE LET p == Downloaded(st.part[b], f, b) IN
+            FetchL([st EXCEPT !.final[b] = IF p.good THEN "good" ELSE "bad", !.part[b] = NoPart, !.fetched = @ \cup {b}], f, lay, i + 1)
+\* a manifest whose last layer has an empty digest: the layers before it are fetched, then the attempt fails
+Fetch(st, f, dup) ==
+  IF f[<<"m", 0>>] = "empty-digest" THEN [FetchL(st, f, SubSeq(Layout(dup), 1, Len(Layout(dup)) - 1), 1) EXCEPT !.failed = TRUE]
+  ELSE FetchL(st, f, Layout(dup), 1)
 
 \* one attempt as a function of the store c = [final, part, man]   -> the store after it and the reported outcome
-AttemptResult(c, f) ==
+AttemptResult(c, f, dup) ==
   IF f[<<"m", 0>>] \notin {"ok", "empty-digest"} THEN [final |-> c.final, part |-> c.part, man |-> c.man, outcome |-> "fail"]
-  ELSE LET st == Fetch([final |-> c.final, part |-> c.part, fetched |-> {}, failed |-> FALSE], f, 1)
+  ELSE LET st == Fetch([final |-> c.final, part |-> c.part, fetched |-> {}, failed |-> FALSE], f, dup)
            badNew == {b \in st.fetched : st.final[b] = "bad"}
            \* the verification stage is reached only when every blob was fetched; it looks at what THIS attempt downloaded
            verified == IF st.failed THEN (IF VerifyOnFailure THEN badNew ELSE {})
